@@ -15,10 +15,17 @@ ASSUMPTIONS = [
     "observation, not a violation (DESIGN section 6): the client keys acknowledgements by packet id only, so a SUBACK/UNSUBACK/PUBACK carrying the id of a pending request of another kind removes the stored packet and completes that request's future (scenario observe/spurious-suback-erases-publish records it on every run); kept_until_acked and future_truthful are stated for 'an acknowledgement packet carrying that id'",
     "conn.Receive only returns packets the decoder produced (C02): acknowledgements carry a non-zero id",
     "C09_future_truthful is proved in its step form (a future turns Completed only while an acknowledgement carrying the id it is stored under is processed / CONNACK accepted / after the QoS 0 Send returned nil); the history form with log marks is a Definition and is evaluated on every observed trace by the extracted checker truthful_ok",
-    "clause scanners over the observed event sequence (TraceScan.v: scan_sbs, scan_pubrec, unresolved) are proved to accept every trace the model accepts; they are what turns a rejected trace into a witnessed violation",
+    "clause scanners over the observed event sequence (TraceScan.v: scan_sbs, scan_pubrec, scan_resend, unresolved) are proved to accept every trace the model accepts; they are what turns a rejected trace into a witnessed violation",
 ]
 
-CLAUSES = {}
+CLAUSES = {
+    "store_before_send": "store_before_send",
+    "kept_until_acked": "kept_until_acked",
+    "resend_on_connect": "resend_on_connect",
+    "future_truthful": "future_truthful",
+    "future_total": "future_total",
+    "accessors_total": "accessors_total",
+}
 KNOWN = {}
 
 
